@@ -19,7 +19,7 @@ and every sequence of sources:
 * (d) `--`, arguments in order: `dashdash_ends_options`, `first_nonoption_ends_options`, `options_end_where_documented`, `remaining_args_in_order`, `args_returned_in_order`, `getArg_spec`
 * "plus/minus-prefixed booleans": no such feature exists in this version; `plus_word_is_argument` states what the code does.
 * (e) usage errors, never a crash: `every_history_ends_cleanly`, `cmdline_ends_cleanly`, `spoof_ends_cleanly`, `environment_ends_cleanly`,
-  `configfile_ends_cleanly`, `setting_succeeds_iff`, `integer_argument_syntax`, `rejected_setting_changes_nothing`, `unknown_long_option`, `ambiguous_long_option`,
+  `configfile_ends_cleanly`, `setting_succeeds_iff`, `integer_argument_syntax`, `real_argument_syntax`, `char_argument_syntax`, `rejected_setting_changes_nothing`, `unknown_long_option`, `ambiguous_long_option`,
   `unknown_short_option`, `argument_to_flag`, `missing_argument_long`, `verifyConfig_spec`
 * (f) queries: `isUsed_iff`, `isDefault_of_default_setter`, `not_default_has_setter`
 
@@ -273,6 +273,20 @@ theorem setting_succeeds_iff {g : G} {i src : Nat} {arg : Option Str} (hinv : In
 
 /-- "a value of the wrong type", integers: accepted iff blanks, optional sign, at least one digit, blanks -/
 theorem integer_argument_syntax (s : Str) : isInteger s = true ↔ IntSyntax s := isInteger_iff s
+
+/-- "a value of the wrong type", reals: whatever is accepted as a real (in the modelled decimal grammar) consists of
+    blanks, optional sign, digits with an optional point (at least one digit), optional exponent, blanks -/
+theorem real_argument_syntax (s : Str) (h : isReal s = true) : RealSyntax s := isReal_sound s h
+
+/-- "a value of the wrong type", characters: accepted iff at most one character (then the range is consulted) -/
+theorem char_argument_syntax (o : Opt) (v : Str) (src : Nat) (ht : o.type = 3) :
+    verifyTypeRange o (some v) src = .good ↔ (v.length ≤ 1 ∧ charRangeOk v o.range = true) := by
+  unfold verifyTypeRange
+  have h0 : (src == byDefault && (some v).isNone) = false := by simp
+  simp only [h0, Bool.false_eq_true, ↓reduceIte, ht]
+  by_cases hl : v.length > 1
+  · simp [hl]
+  · cases hr : charRangeOk v o.range <;> simp [hl, hr] <;> omega
 
 /-- already set by this source, wrong type, out of range: usage error with a message, object untouched -/
 theorem rejected_setting_changes_nothing {g : G} {i src : Nat} {arg : Option Str}
